@@ -172,13 +172,13 @@ Qed.
 Lemma ctor_else_spec st :
   WF st ->
   let st' := ctor_else st in
-  WF st' /\ ext (eG st) (eG st') /\ exists sc, pushed st st' sc /\ sc_comb sc = None /\
-    (forall l, eLast st = Some l ->
-       V (eG st') (sc_full sc) =
-         match eStack st with
-         | [] => cnot (V (eG st) l)
-         | par :: _ => cand (cnot (V (eG st) l)) (V (eG st) (sc_full par))
-         end).
+  WF st' /\ ext (eG st) (eG st') /\ exists sc lv, pushed st st' sc /\ sc_comb sc = None /\
+    (forall l, eLast st = Some l -> lv = V (eG st) l) /\
+    V (eG st') (sc_full sc) =
+      match eStack st with
+      | [] => cnot lv
+      | par :: _ => cand (cnot lv) (V (eG st) (sc_full par))
+      end.
 Proof.
   intros Hw. unfold ctor_else.
   destruct (get_last st) as [l G0] eqn:HL.
@@ -194,10 +194,11 @@ Proof.
   destruct (set_condition_spec (length G1) (Some l) None (set_G st G2) W2 Hp Hl I)
     as (W & E & sc & A1 & A2 & A3 & A4 & A5 & A6 & A7 & A8 & A9 & A10).
   split; auto. split; [eapply ext_trans; [exact E2|exact E]|].
-  exists sc. split; [unfold pushed; repeat split; auto|]. split; auto.
-  intros l0 Hl0. destruct (HL0 _ Hl0) as [-> ->]. rewrite A10. simpl.
-  assert (Hv : V G2 (length G1) = cnot (V (eG st) l0)).
-  { unfold G2. rewrite V_emit. simpl. change (getv (eval_all inp G1) (length (eG st))) with (V G1 (length (eG st))).
+  exists sc, (V G0 l). split; [unfold pushed; repeat split; auto|]. split; auto.
+  split; [intros l0 Hl0; destruct (HL0 _ Hl0) as [-> ->]; reflexivity|].
+  refine (eq_trans A10 _). simpl.
+  assert (Hv : V G2 (length G1) = cnot (V G0 l)).
+  { unfold G2. rewrite V_emit. simpl. change (getv (eval_all inp G1) (length G0)) with (V G1 (length G0)).
     unfold G1. rewrite V_emit. reflexivity. }
   rewrite Hv. destruct (eStack st) as [|par rest] eqn:Hs; auto.
   f_equal. apply V_ext; auto. destruct Hw as [_ _ H3 _ _]. rewrite Hs in H3. inversion H3 as [|? ? (?&?&?) _]; auto.
@@ -206,15 +207,15 @@ Qed.
 Lemma ctor_elseif_spec c st :
   WF st -> c < length (eG st) ->
   let st' := ctor_elseif c st in
-  WF st' /\ ext (eG st) (eG st') /\ exists sc orn, pushed st st' sc /\ sc_comb sc = Some orn /\
+  WF st' /\ ext (eG st) (eG st') /\ exists sc orn lv, pushed st st' sc /\ sc_comb sc = Some orn /\
     orn < length (eG st') /\
-    (forall l, eLast st = Some l ->
-       V (eG st') orn = cor (V (eG st) l) (V (eG st) c) /\
-       V (eG st') (sc_full sc) =
-         match eStack st with
-         | [] => cand (V (eG st) c) (cnot (V (eG st) l))
-         | par :: _ => cand (cand (V (eG st) c) (cnot (V (eG st) l))) (V (eG st) (sc_full par))
-         end).
+    (forall l, eLast st = Some l -> lv = V (eG st) l) /\
+    V (eG st') orn = cor lv (V (eG st) c) /\
+    V (eG st') (sc_full sc) =
+      match eStack st with
+      | [] => cand (V (eG st) c) (cnot lv)
+      | par :: _ => cand (cand (V (eG st) c) (cnot lv)) (V (eG st) (sc_full par))
+      end.
 Proof.
   intros Hw Hc. unfold ctor_elseif.
   destruct (get_last st) as [l G0] eqn:HL.
@@ -227,7 +228,7 @@ Proof.
   assert (E01 : ext G0 G1) by apply ext_emit.
   assert (E12 : ext G1 G2) by apply ext_emit.
   assert (E23 : ext G2 G3) by apply ext_emit.
-  assert (E3 : ext (eG st) G3) by (eapply ext_trans; [exact E0|]; eapply ext_trans; [exact E01|]; eapply ext_trans; eauto).
+  assert (E3 : ext (eG st) G3) by (eapply ext_trans; [exact E0|]; eapply ext_trans; [exact E01|]; eapply ext_trans; [exact E12|exact E23]).
   pose proof (WF_set_G st G3 Hw E3) as W3.
   pose proof (ext_length _ _ E0) as L0.
   assert (Hp : length G2 < length (eG (set_G st G3))) by (simpl; lia).
@@ -235,20 +236,23 @@ Proof.
   destruct (set_condition_spec (length G2) None (Some (length G0)) (set_G st G3) W3 Hp I Ho)
     as (W & E & sc & A1 & A2 & A3 & A4 & A5 & A6 & A7 & A8 & A9 & A10).
   split; auto. split; [eapply ext_trans; [exact E3|exact E]|].
-  exists sc, (length G0). split; [unfold pushed; repeat split; auto|]. split; auto.
-  split; [pose proof (ext_length _ _ E) as LE; change (eG (set_G st G3)) with G3 in LE; lia|].
-  intros l0 Hl0. destruct (HL0 _ Hl0) as [-> ->].
-  assert (Hvo : V G3 (length (eG st)) = cor (V (eG st) l0) (V (eG st) c)).
-  { rewrite (V_ext inp G1 G3); [|eapply ext_trans; eauto|lia]. unfold G1. rewrite V_emit. reflexivity. }
-  assert (Hva : V G3 (length G2) = cand (V (eG st) c) (cnot (V (eG st) l0))).
+  exists sc, (length G0), (V G0 l). split; [unfold pushed; repeat split; auto|]. split; auto.
+  split; [pose proof (ext_length _ _ E) as LE; change (eG (set_G st G3)) with G3 in LE; rewrite L3 in LE; eapply Nat.lt_le_trans; [|exact LE]; lia|].
+  split; [intros l0 Hl0; destruct (HL0 _ Hl0) as [-> ->]; reflexivity|].
+  assert (Hcv : forall Gx, ext G0 Gx -> V Gx c = V (eG st) c).
+  { intros Gx Hx. apply V_ext; [eapply ext_trans; [exact E0|exact Hx]|exact Hc]. }
+  assert (Hvo : V G3 (length G0) = cor (V G0 l) (V (eG st) c)).
+  { rewrite (V_ext inp G1 G3); [|eapply ext_trans; [exact E12|exact E23]|lia]. unfold G1. rewrite V_emit. simpl.
+    change (getv (eval_all inp G0) c) with (V G0 c). rewrite (Hcv G0 (ext_refl _)). reflexivity. }
+  assert (Hva : V G3 (length G2) = cand (V (eG st) c) (cnot (V G0 l))).
   { unfold G3. rewrite V_emit. simpl.
     change (getv (eval_all inp G2) c) with (V G2 c). change (getv (eval_all inp G2) (length G1)) with (V G2 (length G1)).
-    rewrite (V_ext inp (eG st) G2 c); [|eapply ext_trans; eauto|exact Hc].
-    unfold G2 at 1. rewrite V_emit. simpl. change (getv (eval_all inp G1) l0) with (V G1 l0).
-    rewrite (V_ext inp (eG st) G1 l0 E01 B0). reflexivity. }
+    rewrite (Hcv G2); [|eapply ext_trans; [exact E01|exact E12]].
+    unfold G2 at 1. rewrite V_emit. simpl. change (getv (eval_all inp G1) l) with (V G1 l).
+    rewrite (V_ext inp G0 G1 l E01 B0). reflexivity. }
   split.
   - rewrite (V_ext inp G3 _ _ E); [exact Hvo | simpl; lia].
-  - rewrite A10. simpl. rewrite Hva. destruct (eStack st) as [|par rest] eqn:Hs; auto.
+  - refine (eq_trans A10 _). simpl. rewrite Hva. destruct (eStack st) as [|par rest] eqn:Hs; auto.
     f_equal. apply V_ext; auto. destruct Hw as [_ _ H3 _ _]. rewrite Hs in H3. inversion H3 as [|? ? (?&?&?) _]; auto.
 Qed.
 
@@ -263,24 +267,22 @@ Proof.
   intros Hw Hs. pose proof Hw as [H1 H2 H3 H4 H5]. unfold dtor. rewrite Hs.
   rewrite Hs in H3. inversion H3 as [|? ? (Hc & Hf & Hi & Hlo & Hco) Hrest]; subst.
   destruct (sc_comb sc) as [c|] eqn:Hcomb.
-  - simpl. split; [constructor; simpl; auto|]. split; [apply ext_refl|]. repeat split; auto.
-    + intros ? Hx; inversion Hx; reflexivity.
-    + discriminate.
+  - simpl. split; [constructor; simpl; auto|]. split; [apply ext_refl|]. repeat split; auto; intros; congruence.
   - destruct (sc_loe sc) as [l|] eqn:Hloe.
     + destruct (opt_nid_eqb (Some l) (eLast st)).
-      * simpl. split; [constructor; simpl; auto|]. split; [apply ext_refl|]. repeat split; auto; discriminate.
+      * simpl. split; [constructor; simpl; auto|]. split; [apply ext_refl|]. repeat split; auto; intros; congruence.
       * destruct (get_last st) as [cur G0] eqn:HL.
         destruct (get_last_spec _ _ _ Hw HL) as (E0 & B0 & _).
         unfold emit. simpl.
         assert (E1 : ext (eG st) (G0 ++ [NCOr cur l])) by (eapply ext_trans; [exact E0|apply ext_emit]).
         pose proof (ext_length _ _ E1) as L1.
-        split; [|split; [exact E1|repeat split; auto; discriminate]].
+        split; [|split; [exact E1|repeat split; auto; intros; congruence]].
         constructor; simpl; auto.
         -- eapply sigs_ok_mono; [| |exact H2]; lia.
         -- eapply stack_ok_mono; [| |exact Hrest]; lia.
         -- rewrite app_length; simpl; lia.
         -- eapply reads_ok_mono; [|exact H5]; lia.
-    + simpl. split; [constructor; simpl; auto|]. split; [apply ext_refl|]. repeat split; auto; discriminate.
+    + simpl. split; [constructor; simpl; auto|]. split; [apply ext_refl|]. repeat split; auto; intros; congruence.
 Qed.
 
 Lemma leave_block_WF n st : WF st -> WF (leave_block n st).
